@@ -1369,9 +1369,10 @@ class CompositeEnvelope:
             assert (
                 len(product_states) > 0
             ), "Only one product state should exist at this point"
-        ps = product_states[0]
-
         self.reorder(*states)
+
+        # Reordering combines the states if they were not in one product state yet
+        ps = [p for p in self.states if all(so in p.state_objs for so in states)][0]
 
         return ps.trace_out(*states)
 
